@@ -44,6 +44,16 @@ impl Ctx {
     /// record a violation (at most 3 per oracle per run, the first is what gets reported)
     pub fn fail(&mut self, oracle: &str, sig: &str, detail: String) {
         if self.viol.iter().filter(|v| v.oracle == oracle).count() < 3 {
+            // details of cases with thousands of edges are cut (the replay file holds the whole case)
+            let detail = if detail.len() > 6000 {
+                let mut cut = 6000;
+                while !detail.is_char_boundary(cut) {
+                    cut -= 1;
+                }
+                format!("{} ... [{} more bytes]", &detail[..cut], detail.len() - cut)
+            } else {
+                detail
+            };
             self.viol.push(Violation { oracle: oracle.to_string(), sig: sig.to_string(), detail });
         }
     }
